@@ -365,10 +365,12 @@ Fixpoint iexec (n : nat) (fn : string) (s : stmt) (fr : frame) (g : glob) {struc
           match find_fun funs f with
           | None => Some (EX (err "undefined function"), g)
           | Some d =>
-              match iexec n' f (fbody d) (bind_params (fparams d) vs [], []) g with
-              | Fuel => None
-              | Res c _ g' => Some (call_result c, g')
-              end
+              if enough_args (fparams d) vs then
+                match iexec n' f (fbody d) (bind_params (fparams d) vs [], []) g with
+                | Fuel => None
+                | Res c _ g' => Some (call_result c, g')
+                end
+              else Some (EX (VErr "too few arguments"), g)
           end
       | CClo id oid cap =>
           (* LambdaExpression.Call: a fresh context, the parameters, then the captured values; the
@@ -376,10 +378,12 @@ Fixpoint iexec (n : nat) (fn : string) (s : stmt) (fr : frame) (g : glob) {struc
           match nth_error clos id with
           | None => Some (EX (VErr "no such closure"), g)
           | Some cd =>
-              match iexec n' (clo_name oid) (cbody cd) (bind_captured cap (bind_params (cparams cd) vs []), []) g with
-              | Fuel => None
-              | Res c _ g' => Some (call_result c, g')
-              end
+              if enough_args (cparams cd) vs then
+                match iexec n' (clo_name oid) (cbody cd) (bind_captured cap (bind_params (cparams cd) vs []), []) g with
+                | Fuel => None
+                | Res c _ g' => Some (call_result c, g')
+                end
+              else Some (EX (VErr "too few arguments"), g)
           end
       end in
     let ev := ieval callf funs clos fn in
